@@ -156,6 +156,13 @@ struct View {
     first: u64,
     entries: Vec<(u64, u64, u64)>, // (term, kind, digest) from `first`
     nmsgs: usize,
+    ro: Vec<(u64, u64)>,      // read requests registered by the leader: (request id, read index)
+    rstates: Vec<(u64, u64)>, // read states not yet handed out: (request id, index)
+}
+
+/// numeric id of a read request context ("r<N>")
+fn rid_of(ctx: &[u8]) -> u64 {
+    std::str::from_utf8(ctx).ok().and_then(|s| s.strip_prefix('r')).and_then(|s| s.parse().ok()).unwrap_or(0)
 }
 
 pub struct Node {
@@ -404,7 +411,10 @@ impl Sim {
         let r = &rn.raft;
         let first = r.raft_log.first_index();
         let entries = r.raft_log.all_entries().iter().map(ekey).collect();
-        Some(View { term: r.term, vote: r.vote, state: r.state, commit: r.raft_log.committed, first, entries, nmsgs: r.msgs.len() })
+        let mut ro: Vec<(u64, u64)> = r.read_only.pending_read_index.iter().map(|(c, st)| (rid_of(c), st.index)).collect();
+        ro.sort();
+        let rstates = r.read_states.iter().map(|rs| (rid_of(&rs.request_ctx), rs.index)).collect();
+        Some(View { term: r.term, vote: r.vote, state: r.state, commit: r.raft_log.committed, first, entries, nmsgs: r.msgs.len(), ro, rstates })
     }
 
     fn pview(&mut self, i: usize) {
@@ -643,6 +653,37 @@ impl Sim {
             }
         }
         self.emit_generated(i, &gen);
+        // read-index layer: registrations, heartbeat confirmations, answers (after the commit events: a
+        // request is registered with the commit index the leader has at that moment)
+        {
+            let cfgs = fmt_cfg(&conf);
+            let mut started: Vec<u64> = pre.ro.iter().map(|x| x.0).collect();
+            for (rid, _) in post.ro.iter().filter(|x| !pre.ro.contains(x)) {
+                self.pev(i, format!("rstart {} {}", id, rid));
+                started.push(*rid);
+            }
+            if gen.iter().any(|g| g.get_msg_type() == MessageType::MsgHeartbeatResponse && !g.context.is_empty()) {
+                self.pev(i, format!("rhback {}", id));
+            }
+            for g in gen.iter().filter(|g| g.get_msg_type() == MessageType::MsgReadIndexResp) {
+                let rid = g.entries.first().map(|e| rid_of(&e.data)).unwrap_or(0);
+                if !started.contains(&rid) {
+                    // registered and answered within one call (a leader that is the only voter)
+                    self.pev(i, format!("rstart {} {}", id, rid));
+                    started.push(rid);
+                }
+                self.pev(i, format!("rresp {} {} {} {}", id, rid, g.index, cfgs));
+            }
+            if post.rstates.len() > pre.rstates.len() {
+                for (rid, idx) in post.rstates[pre.rstates.len()..].to_vec() {
+                    if post.state == StateRole::Leader && !started.contains(&rid) {
+                        self.pev(i, format!("rstart {} {}", id, rid));
+                        started.push(rid);
+                    }
+                    self.pev(i, format!("rstate {} {} {} {}", id, rid, idx, cfgs));
+                }
+            }
+        }
         // C04 monitor, evaluated on exactly the call that moved a leader's commit index
         if post.commit > pre.commit && post.state == StateRole::Leader && pre.state == StateRole::Leader && same_term {
             let c = post.commit;
@@ -1414,6 +1455,7 @@ impl Sim {
                     let id = self.nodes[i].id;
                     let mc = self.max_commit;
                     self.reads.insert(c.clone(), (id, mc));
+                    self.pev(i, format!("rissue {} {}", id, rid_of(&c)));
                     self.call(i, &format!("read_index (max commit {})", mc), None, |rn| rn.read_index(c));
                 }
                 95 => self.compact(i),
